@@ -712,6 +712,8 @@ func c18Helpers(w *c18World) []c18Helper {
 		// index and link read paths at every place (base path depth 0-3): concurrent callers read
 		// DIFFERENT keys of the same index
 		{c18s2HelperIdx, func(i int) bool { return c18s2Hammer(fixture.get(w), i, true) }},
+		// c18_s9.go: rounds of read transactions that share the slices they pass to the index / link read helpers
+		{c18s9HelperShared, func(i int) bool { return c18s9Round(fixture.get(w), i) }},
 	}
 }
 
@@ -1316,6 +1318,9 @@ func c18Hammer(h c18Helper, goroutines, iters int) string {
 	hw.Wait()
 	if wrong == 0 {
 		return "X ok"
+	}
+	if d := c18s9TakeDetail(); d != "" { // c18_s9.go: the first wrong observation, for the report
+		return fmt.Sprintf("X wrong %d first: %s", wrong, d)
 	}
 	return fmt.Sprintf("X wrong %d", wrong)
 }
